@@ -50,7 +50,7 @@ POLICIES = {
 }
 FAULT_KINDS = ("send_err", "send_partial", "recv_err", "recv_close", "recv_trunc", "reply_lost", "send_timeout")
 EVENTS = {
-    "cip": ("open", "close", "gen_c", "gen_u", "gen_cu", "with_ok", "with_raise", "with_comm"),
+    "cip": ("open", "close", "gen_c", "gen_u", "gen_cu", "gen_big", "with_ok", "with_raise", "with_comm"),
     "logix_noinit": ("open", "close", "read", "write", "gen_c", "gen_u", "with_ok", "with_raise", "with_comm"),
     "logix_upload": ("open", "close", "read", "write", "gen_c", "with_ok", "with_raise", "with_comm"),
     "slc": ("open", "close", "read", "write", "gen_c", "with_ok", "with_raise", "with_comm"),
@@ -135,6 +135,9 @@ class Run:
             out = call(d.generic_message, service=1, class_code=1, instance=1)
         elif ev == "gen_u":
             out = call(d.generic_message, service=1, class_code=1, instance=1, connected=False, unconnected_send=True)
+        elif ev == "gen_big":
+            # request data no frame can carry (the length fields have 16 bits): refused by the library, nothing half-sent, the lifecycle goes on
+            out = call(d.generic_message, service=1, class_code=1, instance=1, request_data=bytes(70000), connected=bool(len(self.outcomes) % 2))
         elif ev == "gen_cu":
             # contradictory keywords: connected (left at its default) and the unconnected-only option together
             out = call(d.generic_message, service=1, class_code=1, instance=1, unconnected_send=True)
